@@ -8,6 +8,6 @@ From Salsa.Intern Require Import RetK Model.
 
 Extraction Language OCaml.
 Extraction "../ocaml/intern/intern_model.ml"
-  REV_MAX GEN_MAX_U32 rust_cfg mkCfg init step exec_rev run
+  REV_MAX GEN_MAX_U32 rust_cfg mkCfg init step exec_rev run intern_cut
   st_cur st_slots st_keys st_lru st_queue st_ub
   key_find acts touches dur_hist.
